@@ -273,7 +273,39 @@ func diffCodec(w *bufio.Writer, n int, seed int64) {
 		b, _ := json.Marshal(p)
 		json.Unmarshal(b, &want)
 		ok := err == nil && pid == id && pst == varmq.VerifStatusString(st) && reflect.DeepEqual(pp, want)
-		fmt.Fprintf(w, "D 0 roundtrip %d => b:%v # -\n", i, ok)
+		fmt.Fprintf(w, "D 0 roundtrip %d %s => b:%v # -\n", i, strings.ReplaceAll(string(mustJSON(map[string]any{"id": id, "payload": p})), " ", "%20"), ok)
+	}
+	typedRoundTrips(w, n)
+}
+
+// typedRoundTrips: payload types other than `any` (the zero / empty values are where struct tags and
+// pointer-ness of the envelope matter)
+func typedRoundTrips(w *bufio.Writer, base int) {
+	type rec struct {
+		A int
+		B []string
+		C map[string]int
+	}
+	labels := []string{"[]int{}", "[]int{1,2}", "[]int(nil)", "[][]string{}", "map[string]int{}", "map[string]int{a:1}", "struct-zero", "struct{A:1,B:[]string{},C:map{}}",
+		"empty-string", "int-0", "bool-false", "nil-pointer", "[]byte{}", "empty-id"}
+	oks := []bool{
+		varmq.VerifRoundTripTyped("t-slice-empty", 1, []int{}),
+		varmq.VerifRoundTripTyped("t-slice", 1, []int{1, 2}),
+		varmq.VerifRoundTripTyped("t-slice-nil", 1, []int(nil)),
+		varmq.VerifRoundTripTyped("t-slice2-empty", 1, [][]string{}),
+		varmq.VerifRoundTripTyped("t-map-empty", 1, map[string]int{}),
+		varmq.VerifRoundTripTyped("t-map", 1, map[string]int{"a": 1}),
+		varmq.VerifRoundTripTyped("t-struct-zero", 1, rec{}),
+		varmq.VerifRoundTripTyped("t-struct", 1, rec{A: 1, B: []string{}, C: map[string]int{}}),
+		varmq.VerifRoundTripTyped("t-string-empty", 1, ""),
+		varmq.VerifRoundTripTyped("t-int-zero", 1, 0),
+		varmq.VerifRoundTripTyped("t-bool-false", 1, false),
+		varmq.VerifRoundTripTyped("t-ptr-nil", 1, (*int)(nil)),
+		varmq.VerifRoundTripTyped("t-bytes-empty", 1, []byte{}),
+		varmq.VerifRoundTripTyped("", 1, 7), // empty id
+	}
+	for i, ok := range oks {
+		fmt.Fprintf(w, "D 0 roundtrip %d typed-payload:%s => b:%v # -\n", base+i, labels[i], ok)
 	}
 }
 
